@@ -8,8 +8,6 @@ args = sys.argv[2:]
 chunks = []
 for i in range(0, len(args), 3):
     rel, old, new = args[i:i+3]
-    old = old.encode().decode('unicode_escape') if '\\n' in old or '\\t' in old else old
-    new = new.encode().decode('unicode_escape') if '\\n' in new or '\\t' in new else new
     src = open(os.path.join('/repo', rel), encoding='utf-8').read()
     n = src.count(old)
     if n != 1:
